@@ -398,6 +398,15 @@ def run_check(spec, tier, base_seed, nproc=None, n_override=None):
                                                                 selftest["fresh_mismatch"], len(idxs)))
 
     selftest_wall = time.time() - t0 - batch_wall
+    # ---- check-specific extra step (e.g. model conformance against real processes)
+    extra_info = None
+    extra_viol = []
+    if hasattr(spec, "extra") and not harness_errors:
+        try:
+            extra_viol, extra_herr, extra_info = spec.extra(tier, base_seed)
+            harness_errors.extend(extra_herr)
+        except Exception:       # noqa: BLE001
+            harness_errors.append("extra step failed: %s" % traceback.format_exc()[-600:])
     # ---- minimise one representative per violation signature, write + verify replay files
     known = load_known(prop)
     by_sig = collections.OrderedDict()
@@ -477,6 +486,7 @@ def run_check(spec, tier, base_seed, nproc=None, n_override=None):
         "violating_cases": merged["nviol"],
         "violation_signatures": dict(merged["sigs"]),
         "known_findings_hit": [k.get("id") for k, _ in known_hits],
+        "extra_step": extra_info,
         "processes": nproc,
         "batch_wall_s": round(batch_wall, 2),
         "selftest_wall_s": round(selftest_wall, 2),
@@ -486,7 +496,7 @@ def run_check(spec, tier, base_seed, nproc=None, n_override=None):
     evidence = {
         "property_id": prop, "tier": tier, "seed": int(base_seed), "level": meta.get("level", "exploration"),
         "coverage": coverage, "assumptions": meta["assumptions"], "wall_s": round(wall, 2),
-        "violations": len(new_violations) + len(unshrunk) + len(stuck_reps),
+        "violations": len(new_violations) + len(unshrunk) + len(stuck_reps) + len(extra_viol),
     }
     if not os.environ.get("VERIF_KEEP_EVIDENCE"):      # (set by bin/seed-run: runs against a deliberately broken tree)
         os.makedirs(os.path.join(VERIF, "evidence"), exist_ok=True)
@@ -507,6 +517,15 @@ def run_check(spec, tier, base_seed, nproc=None, n_override=None):
     for rep, path in new_violations:
         print("  %s (seed %d, %d -> %d decisions): %s" % (rep["sig"], rep["viol"]["seed"],
               len(rep["viol"]["values"]), len(rep["values"]), rep["message"]))
+        print("VIOLATION property=%s replay=%s" % (prop, path))
+        rc = 1
+    for ev in extra_viol:
+        path = os.path.join(VERIF, "replays", "%s-%s-%s.json" % (prop, ev["kind"], hashlib.sha256(ev["message"].encode()).hexdigest()[:10]))
+        os.makedirs(os.path.dirname(path), exist_ok=True)
+        with open(path, "w") as f:
+            json.dump({"property": prop, "spec": spec.__name__, "base_seed": base_seed, "tier": tier, **ev,
+                       "replay_cmd": "bin/check %s --tier %s --seed %d (the extra step is deterministic in the seed)" % (prop, tier, base_seed)}, f, indent=1)
+        print("  %s: %s" % (ev["kind"], ev["message"]))
         print("VIOLATION property=%s replay=%s" % (prop, path))
         rc = 1
     for s in unshrunk:
